@@ -242,14 +242,22 @@ Definition xmin_spec (g : glyph) : Z :=
   end.
 (* flags bit 0: the lsb[] array is omitted, bit 1: the leftSideBearing[] array is omitted; either
    may be set only if every omitted value equals the glyph's xMin; bits 2-7 reserved *)
+Definition encodes_hmtx_flags (flags : Z) (glyf : list glyph) (h : list (Z * Z) * list Z)
+  (bytes : list Z) : Prop :=
+  0 <= flags < 256 /\
+  (Z.land flags 1 = 1 -> map snd (fst h) = map xmin_spec (firstn (length (fst h)) glyf)) /\
+  (Z.land flags 2 = 2 -> snd h = map xmin_spec (skipn (length (fst h)) glyf)) /\
+  bytes = [flags] ++ flat_map (fun p => wr_u16 (fst p)) (fst h)
+          ++ (if Z.land flags 1 =? 0 then flat_map (fun p => wr_i16 (snd p)) (fst h) else [])
+          ++ (if Z.land flags 2 =? 0 then flat_map wr_i16 (snd h) else []).
 Definition encodes_hmtx (glyf : list glyph) (h : list (Z * Z) * list Z) (bytes : list Z) : Prop :=
-  exists flags,
-    0 <= flags < 256 /\
-    (Z.land flags 1 = 1 -> map snd (fst h) = map xmin_spec (firstn (length (fst h)) glyf)) /\
-    (Z.land flags 2 = 2 -> snd h = map xmin_spec (skipn (length (fst h)) glyf)) /\
-    bytes = [flags] ++ flat_map (fun p => wr_u16 (fst p)) (fst h)
-            ++ (if Z.land flags 1 =? 0 then flat_map (fun p => wr_i16 (snd p)) (fst h) else [])
-            ++ (if Z.land flags 2 =? 0 then flat_map wr_i16 (snd h) else []).
+  exists flags, encodes_hmtx_flags flags glyf h bytes.
+
+(* the left side bearing of glyph g as a reader of the hmtx table finds it: in the long metrics
+   below numberOfHMetrics, in the trailing array (index g - numberOfHMetrics) from there on *)
+Definition hmtx_lsb (h : list (Z * Z) * list Z) (g : Z) : Z :=
+  if g <? len (fst h) then snd (nth (Z.to_nat g) (fst h) (0, 0))
+  else nth (Z.to_nat (g - len (fst h))) (snd h) 0.
 
 (* ------------------------------------------------------------------ 4.1 table directory *)
 From Coq Require String Ascii.
